@@ -19,7 +19,7 @@ TECHNIQUE = ('Coq proof (Gallina model of DataFrame.groupby, the HDF5DataFrameGr
              '= group-wise reference over the ascending distinct key tuples) + exhaustive small-scope differential '
              'correspondence against real HDF5-backed dataframes')
 RULE = ('exhaustive small scope, then seeded random, then a malformed stream. (1) one key column: every key sequence '
-        'over 3 symbols x every target pattern over 3 symbols for <= 4 rows (thorough 5), the key column cycling through '
+        'over 3 symbols x every target pattern over 3 symbols for <= 3 rows, plus every key sequence of 4 rows (thorough: and 5 rows) x a seeded sample of 4 (thorough 27) target patterns, the key column cycling through '
         'int32 / int64 beyond 2^53 / uint64 / float / bool / categorical / timestamp / fixed string / indexed string, '
         'three target columns per frame (numeric, fixed string, indexed string over prefix-heavy alphabets with empty '
         'strings and differing lengths) and all of min, max, first, last, count in one destination (write_keys on the '
@@ -470,12 +470,12 @@ def gen(tier, rng):
     big = tier == 'thorough'
     cnt = 0
     # (1) one key column, exhaustive keys x target patterns
-    nfull = 4 if big else 3
-    for n in range(0, nfull + 2):
+    nfull = 3
+    for n in range(0, (6 if big else 5)):
         for ks in seqs(3, n):
             tpats = list(seqs(3, n))
             if n > nfull:
-                tpats = rng.sample(tpats, 9 if big else 4)
+                tpats = rng.sample(tpats, (27 if n == 4 else 4) if big else 4)
             for ts in tpats:
                 cnt += 1
                 fl = KEY_FLAVOURS_1[cnt % len(KEY_FLAVOURS_1)]
@@ -585,7 +585,7 @@ def gen(tier, rng):
             fl = fls[cnt % len(fls)]
             yield {'op': 'distinct', 'fields': [{'fl': fl[0], 'v': [r[0] for r in rows]}, {'fl': fl[1], 'v': [r[1] for r in rows]}]}
     # (6) random larger frames
-    for _ in range(1500 if big else 120):
+    for _ in range(600 if big else 120):
         cnt += 1
         n = rng.randint(5, 40)
         nk = rng.choice([1, 1, 2, 2, 3])
